@@ -146,6 +146,8 @@ def _quick(s):
         return s["shape"] == 5 and (s["hx"], s["hy"], s["hc"], s["hin"], s["hz"]) in ((1, 0, 0, 0, 0), (1, 1, 0, 0, 0))     # a single object where a list of objects is expected
     if "hx" in s:
         return TYPES[s["ti"]][0] == "o" and s["shape"] == 5 and (s["hx"], s["hy"], s["hc"], s["hin"], s["hz"]) in ((1, 0, 0, 0, 0), (0, 1, 0, 0, 0), (1, 1, 0, 0, 0), (1, 0, 1, 0, 0), (1, 0, 0, 1, 0), (1, 0, 0, 0, 1), (0, 0, 0, 1, 0))
+    if s["di"] == 1 and s["shape"] == 1 and TYPES[s["ti"]][0] in ("i", "ni", "li", "b"):
+        return True          # a provided value (incl. explicit null) where the variable declares a default
     return TYPES[s["ti"]][0] in ("i", "nli", "lli", "o", "c", "f") and (s["di"] == 0 or s["shape"] == 0)
 
 
